@@ -83,25 +83,22 @@ Theorem C14_mapping_of_full : forall o rm l idx mo,
 Proof. exact mapping_of_full. Qed.
 
 (* the async twin (impl AsyncFileSystem for Vfs): same answer -- hence the same translated owner ids in every reply --
-   and the same calls with the same translated context ids as the sync method, for every operation except getattr of a
-   pseudo directory; so C14_in_* / C14_out_* speak about the async entry points too *)
-Theorem C14_async_same : forall s c o a, has_async_twin o = true ->
-  (forall n id, o = OGetattr n -> get_real_rootfs s n <> Ok (SLeft id)) ->
-  vfs_async_op s c o a = tagged (vfs_op s c o a).
+   and the same calls with the same translated context ids as the sync method, for every one of the ten operations;
+   so C14_in_* / C14_out_* speak about the async entry points too *)
+Theorem C14_async_same : forall s c o a, has_async_twin o = true -> vfs_async_op s c o a = tagged (vfs_op s c o a).
 Proof. exact vfs_async_same. Qed.
 Theorem C14_async_in_ctx : forall s hdr c o a r evs, has_async_twin o = true -> vfs_request_async s hdr c o a = (r, evs) ->
   Forall (fun ev => Some (ev_cuid ev) = to_int (effective_mapping s (ctx_idx s hdr)) (c_uid c) /\
                     Some (ev_cgid ev) = to_int (effective_mapping s (ctx_idx s hdr)) (c_gid c)) evs.
 Proof. exact async_ctx_in. Qed.
-(* async getattr answers like the sync getattr: refuted for pseudo directories (async_getattr returns their attributes
-   without convert_attr: owner 0:0 untranslated); proved when the mapping of index 0 does not cover id 0 *)
-Definition C14_async_getattr_full : Prop := async_getattr_full.
-Theorem C14_async_getattr_refuted : ~ C14_async_getattr_full.
-Proof. exact async_getattr_refuted. Qed.
-Theorem C14_async_getattr_partial : forall s c n a, n < two64 ->
-  to_ext (effective_mapping s 0) 0 = Some 0 ->
+(* in particular async getattr answers like the sync getattr, pseudo directories included (the statement the model
+   refuted before fix 3199019; the former witness is now an Example) *)
+Theorem C14_async_getattr_full : forall s c n a,
   fst (vfs_async_op s c (OGetattr n) a) = fst (vfs_op s c (OGetattr n) a).
-Proof. exact async_getattr_partial. Qed.
+Proof. exact async_getattr_full. Qed.
+Example C14_witness_async_getattr : reachable ex_gmap /\
+  fst (vfs_async_op ex_gmap (mkC 0 0) (OGetattr 2) (mkAns 0 (mkE 0 0 0 0 0) (mkA 0 0 0 0) 0 [])) = Ok (RAttr (mkA 2 1000 1000 0)).
+Proof. exact async_getattr_pseudo. Qed.
 Example C14_async_example : reachable ex_rootmap /\
   vfs_request_async ex_rootmap 1 (mkC 100005 100006) (OLookup 1 (NNorm 3)) (mkAns 0 (mkE 9 9 7 8 0) (mkA 0 0 0 0) 0 []) =
   (Ok (REntry (mkE (mk_vino 1 9) (mk_vino 1 9) 100007 100008 0)), [mkEv 10 (async_tag + m_lookup) 1 0 5 6 0 0]).
@@ -146,5 +143,4 @@ Print Assumptions C14_pseudo_owner_full.
 Print Assumptions C14_mapping_of_full.
 Print Assumptions C14_async_same.
 Print Assumptions C14_async_in_ctx.
-Print Assumptions C14_async_getattr_refuted.
-Print Assumptions C14_async_getattr_partial.
+Print Assumptions C14_async_getattr_full.
